@@ -141,17 +141,17 @@ theorem draws_hasTy (D : StdDist β δ) (ty : Ty) (G : Gen γ) (n : Nat) (v : Va
 /-! ## programs over several objects -/
 
 /-- **Transparency of whole programs.**  Take any program over any number of `distribution::basic` objects
-and `variate`s on one generator: construction by either constructor / `make_basic`, copy construction,
+and `variate`s on two generators of one type: construction by either constructor / `make_basic`, copy construction,
 copy assignment (also onto itself), moves, `swap`, draws from any object in any interleaving, `reset()`,
 `param(p)`, `==`, `min()` / `max()` / parameters / `operator<<`, variates built from a distribution in whatever
-state it is (`variate(gen, dist)`, `make_variate`, `variate(gen, params)`), copies of variates, and direct calls
-of the generator in between.  It fails (uses an object that does not exist) exactly when the same program
+state it is (`variate(gen, dist)`, `make_variate`, `variate(gen, params)`), copies and assignments of variates
+(the target then draws from the generator the source refers to), and direct calls of the generators in between.  It fails (uses an object that does not exist) exactly when the same program
 written against the bare standard distribution and the bare engine fails, and otherwise every observation
 is the standard program's observation with the drawn values / `min` / `max` re-wrapped by `decorate`, and
 every object ends in exactly the state of its standard counterpart — in particular a copy continues the
 sequence of its original from the original's state, and drawing never happens on a temporary copy. -/
 theorem script_transparent (D : StdDist β δ) (out : δ → String) (ty : Ty) (G : Gen γ)
-    (acts : List (Act β)) (s : ObjsF δ) (g : γ) :
+    (acts : List (Act β)) (s : ObjsF δ) (g : γ × γ) :
     (runScriptF D out ty (basicPseudo G) acts s g).map (fun r => (r.1, r.2.1.erase, r.2.2)) =
       (runScriptS D out G acts s.erase g).map (fun r => (r.1.map (Ev.map (decorate ty)), r.2.1, r.2.2)) :=
   runScriptF_erase D out ty G acts s g
@@ -222,14 +222,14 @@ does not use an object that does not exist: every drawn value lies in the interv
 and the parameters of the wrapped distribution report exactly that interval.  `boundsScript` computes the
 requested intervals from the program text alone. -/
 theorem script_in_range {D : StdDist Int δ} (hU : D.UniformInt) (out : δ → String) (ty : Ty) (G : Gen γ)
-    (acts : List (Act Int)) (g : γ) (r : List (Ev (DVal Int) Int) × ObjsF δ × γ)
+    (acts : List (Act Int)) (g : γ × γ) (r : List (Ev (DVal Int) Int) × ObjsF δ × (γ × γ))
     (hr : runScriptF D out ty (basicPseudo G) acts ObjsF.empty g = .ok r) (hv : ∀ a ∈ acts, ActValid a) :
     EvsWithin r.1 (boundsScript acts Bnds.empty) :=
   (runScriptF_within hU out ty (basicPseudo G) acts ObjsF.empty g Bnds.empty r hr (tracks_empty D) hv).1
 
 /-- the same from any state whose objects hold the intervals listed in `b` -/
 theorem script_in_range_from {D : StdDist Int δ} (hU : D.UniformInt) (out : δ → String) (ty : Ty) (G : Gen γ)
-    (acts : List (Act Int)) (s : ObjsF δ) (g : γ) (b : Bnds) (r : List (Ev (DVal Int) Int) × ObjsF δ × γ)
+    (acts : List (Act Int)) (s : ObjsF δ) (g : γ × γ) (b : Bnds) (r : List (Ev (DVal Int) Int) × ObjsF δ × (γ × γ))
     (hr : runScriptF D out ty (basicPseudo G) acts s g = .ok r) (ht : Tracks D s b) (hv : ∀ a ∈ acts, ActValid a) :
     EvsWithin r.1 (boundsScript acts b) ∧ Tracks D r.2.1 (acts.foldl (fun b a => (boundsStep a b).2) b) :=
   runScriptF_within hU out ty (basicPseudo G) acts s g b r hr ht hv
@@ -414,22 +414,31 @@ example :
 `D0`'s state (`k = 2`), both on the one generator; comparing them tells the states apart -/
 example :
     (runScriptF modDist modOut (.strong .base) (basicPseudo ctrEngine)
-      [.newP 0 ⟨.strong (.base 0), .strong (.base 9)⟩, .draw 0, .draw 0, .copy 1 0 false, .eq 0 1, .draw 1, .eq 0 1, .draw 0, .eq 0 1,
-        .look 1] ObjsF.empty 5).toOption.map (·.1)
+      [.newP 0 ⟨.strong (.base 0), .strong (.base 9)⟩, .draw 0 false, .draw 0 false, .copy 1 0 false, .eq 0 1, .draw 1 false, .eq 0 1,
+        .draw 0 false, .eq 0 1, .look 1] ObjsF.empty (5, 0)).toOption.map (·.1)
       = some [.val (.strong (.base 5)), .val (.strong (.base 7)), .eq true, .val (.strong (.base 0)), .eq false,
           .val (.strong (.base 1)), .eq true, .look (.strong (.base 0)) (.strong (.base 9)) (0, 9) "0 9 3"] ∧
-    boundsScript [.newP 0 ⟨.strong (.base 0), .strong (.base 9)⟩, .draw 0, .draw 0, .copy 1 0 false, .eq 0 1, .draw 1, .eq 0 1,
-        .draw 0, .eq 0 1, .look 1] Bnds.empty
+    boundsScript [.newP 0 ⟨.strong (.base 0), .strong (.base 9)⟩, .draw 0 false, .draw 0 false, .copy 1 0 false, .eq 0 1, .draw 1 false,
+        .eq 0 1, .draw 0 false, .eq 0 1, .look 1] Bnds.empty
       = [some (0, 9), some (0, 9), none, some (0, 9), none, some (0, 9), none, some (0, 9)] := by
   decide
 
 /-- drawing from a temporary copy (the seeded regression `C20-2`) is refuted by the model: the second value would
 repeat the state `k = 0` -/
 example :
-    let lossy : List (Act Int) := [.newP 0 ⟨.base 0, .base 9⟩, .copy 1 0 false, .draw 1, .copy 1 0 false, .draw 1]
-    let right : List (Act Int) := [.newP 0 ⟨.base 0, .base 9⟩, .draw 0, .draw 0]
-    (runScriptF modDist modOut .base (basicPseudo ctrEngine) lossy ObjsF.empty 5).toOption.map (·.1) = some [.val (.base 5), .val (.base 6)] ∧
-    (runScriptF modDist modOut .base (basicPseudo ctrEngine) right ObjsF.empty 5).toOption.map (·.1) = some [.val (.base 5), .val (.base 7)] := by
+    let lossy : List (Act Int) := [.newP 0 ⟨.base 0, .base 9⟩, .copy 1 0 false, .draw 1 false, .copy 1 0 false, .draw 1 false]
+    let right : List (Act Int) := [.newP 0 ⟨.base 0, .base 9⟩, .draw 0 false, .draw 0 false]
+    (runScriptF modDist modOut .base (basicPseudo ctrEngine) lossy ObjsF.empty (5, 0)).toOption.map (·.1) = some [.val (.base 5), .val (.base 6)] ∧
+    (runScriptF modDist modOut .base (basicPseudo ctrEngine) right ObjsF.empty (5, 0)).toOption.map (·.1) = some [.val (.base 5), .val (.base 7)] := by
+  decide
+
+/-- assigning a variate re-seats its generator: `V1` (on the second generator, at 100) is assigned `V0` (on the
+first, at 5) and from then on draws from the first generator, continuing `V0`'s distribution state -/
+example :
+    (runScriptF modDist modOut .base (basicPseudo ctrEngine)
+      [.varP 0 ⟨.base 0, .base 9⟩ false, .varP 1 ⟨.base 0, .base 9⟩ true, .vdraw 0, .vdraw 1, .varCopy 1 0 true, .vdraw 1, .vdraw 0,
+        .raw true, .raw false] ObjsF.empty (5, 100)).toOption.map (·.1)
+      = some [.val (.base 5), .val (.base 0), .val (.base 7), .val (.base 8), .raw 101, .raw 8] := by
   decide
 
 /-- a container program: the wrapper sees the element written after it was made, and the program writes through
